@@ -92,6 +92,11 @@ type Chan struct {
 	// Send may be in progress.  Two overlapping Sends then transmit one message
 	// twice and lose the other.
 	Fragile bool
+	// ReuseRecv makes Recv behave like the library's header framings, which
+	// hand out a slice of one receive buffer: the bytes of a record are
+	// overwritten when the next Recv begins.
+	ReuseRecv bool
+	rframe    []byte
 	frame   []byte
 
 	sendIn, recvIn, closeIn atomic.Int32
@@ -231,8 +236,18 @@ func (c *Chan) Recv() ([]byte, error) {
 		}
 		return d, err
 	}
+	if c.ReuseRecv {
+		// (the previous record's memory is gone as soon as Recv is entered)
+		for i := range c.rframe {
+			c.rframe[i] = 'x'
+		}
+	}
 	d, err := c.inner.Recv()
 	c.yield()
+	if c.ReuseRecv && err == nil {
+		c.rframe = append(c.rframe[:0], d...)
+		d = c.rframe
+	}
 	return d, err
 }
 
